@@ -147,6 +147,7 @@ type World struct {
 	stopEverAsked    bool
 	started          bool
 	regLost          []string
+	spinSeen         bool
 	execCounter      int
 	stopCtxErrSeen   bool
 	lcSnap           map[int]map[string]int
@@ -794,6 +795,21 @@ func (w *World) onStep() {
 	if w.runDone && w.ph < phPost {
 		w.ph = phPost
 	}
+	// a task that retries a non-blocking call answered with EAGAIN hundreds of
+	// times without ever going back to the poller is spinning: ask for the
+	// shutdown (legal at any time); if the spin survives that, the run is ended
+	// and the shutdown that cannot complete is the finding
+	if w.k.SpinMax >= 500 && !w.spinSeen {
+		w.spinSeen = true
+		w.probes["busy-retry-detected"]++
+		w.logf("busy retry: %s", w.k.SpinDesc)
+		if !w.stopRequested && w.booted {
+			w.requestStop()
+		}
+	}
+	if w.spinSeen && w.k.SpinMax >= 3000 && w.s.StopWhy() == "" {
+		w.s.Stop("spin")
+	}
 }
 
 // onQuiescent: nothing is runnable. Decide what the phase requires.
@@ -913,7 +929,9 @@ func (w *World) usersSettled() bool { return w.usersDone >= len(w.p.Users) }
 
 func (w *World) finish() {
 	w.logf("finish: phase=%d stop=%s steps=%d", w.ph, w.s.StopWhy(), w.s.Step())
-	if w.s.StopWhy() == "step-cap" {
+	if w.spinSeen && !w.runDone && (w.s.StopWhy() == "spin" || w.s.StopWhy() == "step-cap") {
+		w.violate("C06", "spin", "%s; the shutdown requested meanwhile never completed (OnShutdown calls: %d)", w.k.SpinDesc, w.shutdownCount)
+	} else if w.s.StopWhy() == "step-cap" {
 		w.violate("HARNESS", "step-cap", "step cap reached in phase %d", w.ph)
 	}
 	w.simNanos = w.s.SimNanos()
